@@ -65,7 +65,11 @@ def check(sess, op, rec=None, after_reopen=False):
                 raise Violation(f"C20:stored-object-fails-embedded-schema:{e0.validator}", f"{where}: {epn} at {owner}: {e0.message[:200]} at {list(e0.path)} "
                                 f"(instance {json.dumps(inst)[:200]})", "every stored object validates against the embedded JSON Schema")
             # parent chain
-            exp_pp = [(r.name, tuple(r.version)) for r in schemas.parent_path(name, ver)]
+            # (the chain of the classes the schema really derives from - not schemas.parent_path, the function under test)
+            exp_pp = list(reversed(C.class_parents(schemas.get(name, ver))))
+            sys_pp = [(r.name, tuple(r.version)) for r in schemas.parent_path(name, ver)]
+            if sys_pp != exp_pp:
+                raise Violation("C20:plugin-system-parent-chain-wrong", f"{where}: schemas.parent_path({name!r}, {ver}) -> {sys_pp}", exp_pp)
             got_pp = [(r["name"], tuple(r["version"])) for r in compat_l]
             if got_pp != exp_pp:
                 raise Violation("C20:embedded-parent-chain-wrong", f"{where}: {epn}: {got_pp}", exp_pp)
